@@ -240,7 +240,7 @@ def gen_select_req(rng, n=None):
 # workspaces on disk + CLI
 # ------------------------------------------------------------------------------------------------
 
-def write_workspace(root, nodes, es, inputs=None, commands=None, extra_pkgs=()):
+def write_workspace(root, nodes, es, inputs=None, commands=None, extra_pkgs=(), outputs=None):
     """BUILD.json per package from an attributed graph. `inputs[i]` = list of package-relative input files
     (created with some content), `commands[i]` = shell command (default `true`)."""
     os.makedirs(root, exist_ok=True)
@@ -258,6 +258,8 @@ def write_workspace(root, nodes, es, inputs=None, commands=None, extra_pkgs=()):
                 t["dependencies"] = dl
             if inputs and inputs.get(i):
                 t["inputs"] = list(inputs[i])
+            if outputs and outputs.get(i):
+                t["outputs"] = list(outputs[i])
             if nd["tags"]:
                 t["tags"] = nd["tags"]
             if nd["platforms"]:
